@@ -535,8 +535,14 @@ fn variant_destruct_block(input: &Struct, ctx: &ImplContext) -> TokenStream {
                         let ident = &x.member;
                         quote!(#ident ,)
                     } else if let Some(attr) = attr {
-                        let ident = attr.get_field_name_or(&x.member);
-                        quote!(#ident ,)
+                        match attr.get_field_name_or(&x.member) {
+                            // a member of the counterpart that is designated by index is bound to the name the member's line reads
+                            Unnamed(index) => {
+                                let binding = variant_binding(index, ctx);
+                                quote!(#index: #binding ,)
+                            },
+                            ident => quote!(#ident ,),
+                        }
                     } else { unreachable!("3") }
                 }).collect(),
             TypeHint::Struct,
@@ -698,7 +704,13 @@ fn render_child(
 {
     let child_path = field_ctx.0;
     let child_name = child_path.child_path[field_ctx.1].to_token_stream();
-    let ty = &child_data.ty;
+    // the type opens a struct expression: generic arguments need the turbofish there (Wrapper::<T> { .. })
+    let mut ty = child_data.ty.clone();
+    for segment in ty.segments.iter_mut() {
+        if let syn::PathArguments::AngleBracketed(args) = &mut segment.arguments {
+            args.colon2_token = Some(Default::default());
+        }
+    }
     let init = struct_init_block_inner(fields, named_fields, ctx, Some((field_ctx.0, Some(child_data), field_ctx.1)));
     match (ctx.input.named_fields(), hint) {
         (true, TypeHint::Struct | TypeHint::Unspecified) => quote!(#child_name: #ty #init,),
